@@ -4,6 +4,46 @@
 #include "inc/Main.h"
 #include "inc/Face.h"
 #include "inc/CmapCache.h"
+#include "inc/TtfUtil.h"
+
+using namespace graphite2;
+
+static unsigned rd16(const uint8_t *p) { return p[0] << 8 | p[1]; }
+static unsigned long rd32(const uint8_t *p) { return (unsigned long)rd16(p) << 16 | rd16(p + 2); }
+
+// Are the ranges of the Unicode subtables the face uses sorted and disjoint (start <= end, every range ends before the next begins)?
+// This is the hypothesis of the Lean theorem cached_lookup_is_direct_lookup (sortedCmapB), computed here independently: the subtables are
+// found as CmapCache.cpp finds them, the arrays are read where CheckCmapSubtable4/12 have established they lie.
+static std::string cmap_sorted(const gr_face *f) {
+    const Face::Table cmap(*f, Tag::cmap);
+    if (!cmap || !cmap.size()) return "-";
+    const void *bmp = 0, *smp = 0, *st;
+    const uint8_t *end = cmap + cmap.size();
+    static const int pref4[5][2] = {{3, 1}, {0, 3}, {0, 2}, {0, 1}, {0, 0}}, pref12[2][2] = {{3, 10}, {0, 4}};
+    for (auto &pe : pref4)
+        if (TtfUtil::CheckCmapSubtable4(st = TtfUtil::FindCmapSubtable(cmap, pe[0], pe[1], cmap.size()), end)) { bmp = st; break; }
+    for (auto &pe : pref12)
+        if (TtfUtil::CheckCmapSubtable12(st = TtfUtil::FindCmapSubtable(cmap, pe[0], pe[1], cmap.size()), end)) { smp = st; break; }
+    if (!bmp) return "-";
+    const uint8_t *b = static_cast<const uint8_t *>(bmp);
+    const size_t n = rd16(b + 6) / 2;
+    bool ok = true;
+    for (size_t i = 0; i < n && ok; ++i) {
+        const unsigned en = rd16(b + 14 + 2 * i), sc = rd16(b + 14 + 2 * (n + 1 + i));
+        if (sc > en) ok = false;
+        if (i + 1 < n && en >= rd16(b + 14 + 2 * (n + 1 + i + 1))) ok = false;
+    }
+    if (smp) {
+        const uint8_t *s = static_cast<const uint8_t *>(smp);
+        const size_t g = rd32(s + 12);
+        for (size_t i = 0; i < g && ok; ++i) {
+            const unsigned long sc = rd32(s + 16 + 12 * i), en = rd32(s + 20 + 12 * i);
+            if (sc > en) ok = false;
+            if (i + 1 < g && en >= rd32(s + 16 + 12 * (i + 1))) ok = false;
+        }
+    }
+    return ok ? "1" : "0";
+}
 
 int main(int argc, char **argv) {
     if (argc < 2) return 2;
@@ -38,7 +78,7 @@ int main(int argc, char **argv) {
                 std::string d = (fd_fault || (fd && qf)) ? "fault" : !fd ? "noface" : std::to_string(hd);
                 std::string c = (fc_fault || (fc && qf)) ? "fault" : !fc ? "noface" : std::to_string(hc);
                 if (diff >= 0) snprintf(buf, sizeof buf, "%lx", diff); else snprintf(buf, sizeof buf, "none");
-                out = "d=" + d + " c=" + c + " diff=" + buf;
+                out = "d=" + d + " c=" + c + " diff=" + buf + " sorted=" + ((fd && d != "fault") ? cmap_sorted(fd) : std::string("-"));
             }
             if (fd) gr_face_destroy(fd);
             if (fc) gr_face_destroy(fc);
